@@ -356,11 +356,11 @@ fn e1(ctx: &Ctx, res: &mut PartResult, pb: usize) {
 fn parts(ctx: &Ctx) -> Vec<PartSpec> {
     let mut v = vec![
         PartSpec::new("e3-paths", json!({"e3": "paths"})),
-        PartSpec::new("e3-pairs", json!({"e3": "pairs"})).budget(if ctx.quick() { 45.0 } else { 1500.0 }),
-        PartSpec::new("e3-triples-a", json!({"e3": "triples:a"})).budget(if ctx.quick() { 45.0 } else { 1500.0 }),
-        PartSpec::new("e3-triples-empty", json!({"e3": "triples:"})).budget(if ctx.quick() { 45.0 } else { 1500.0 }),
+        PartSpec::new("e3-pairs", json!({"e3": "pairs"})).budget(if ctx.quick() { 150.0 } else { 1500.0 }),
+        PartSpec::new("e3-triples-a", json!({"e3": "triples:a"})).budget(if ctx.quick() { 150.0 } else { 1500.0 }),
+        PartSpec::new("e3-triples-empty", json!({"e3": "triples:"})).budget(if ctx.quick() { 150.0 } else { 1500.0 }),
     ];
-    v.push(PartSpec::new("e1-get-hash", json!({"e1": if ctx.quick() { 3 } else { 5 }})).budget(if ctx.quick() { 40.0 } else { 1200.0 }));
+    v.push(PartSpec::new("e1-get-hash", json!({"e1": if ctx.quick() { 3 } else { 5 }})).budget(if ctx.quick() { 120.0 } else { 1200.0 }));
     v
 }
 
